@@ -474,6 +474,16 @@ def c13_texts(ctx):
     for k in range(20 if ctx.quick else 200):
         g = gram.random_grammar(rnd, nT=rnd.randint(1, 3), nN=rnd.randint(2, 5), p_term=0.25, max_len=1, want_tags=False)
         texts.append(('tcy_r%d' % k, gram.render_plain(g, 'main').encode()))
+    # grammars that must be refused because a nonterminal derives no terminal string, where the recursion that never ends does
+    # not go through the nonterminal reported first (the symbols are numbered in the order of their names)
+    for k, spec in enumerate(['top: expr ; expr: expr + expr | atom ; atom: ( expr )', 'list: list , item | item ; item: ( list )',
+                              'S: B ; B: C x ; C: C y', 'a: b ; b: c ; c: d ; d: c x', 'z: y | a ; y: x y ; x: y x', 'S: A B ; A: a ; B: C ; C: D c ; D: C d']):
+        texts.append(('tun_%d' % k, gram.render_plain(gram.from_text(spec), 'main').encode()))
+    for k in range(20 if ctx.quick else 200):
+        g = gram.random_grammar(rnd, nT=rnd.randint(1, 3), nN=rnd.randint(2, 5), p_term=0.4)
+        lose = set(rnd.sample(range(len(g['nonterms'])), rnd.randint(1, len(g['nonterms']) - 1)))
+        g['rules'] = [r for r in g['rules'] if not (r['lhs'] in lose and all(x[0] == 't' for x in r['rhs']))] or g['rules'][:1]
+        texts.append(('tun_r%d' % k, gram.render_plain(g, 'main').encode()))
     # a small well-formed grammar with an exponentially large LR(0) automaton (Ukkonen's family, about n*2^n states): the state
     # limit must stop the construction (names starting with big_ get a longer deadline: printing 2000 states takes seconds)
     n = 10
